@@ -3,13 +3,13 @@ From FC Require Import Base.Res Index.IC Region.Region Region.Owned Region.Simpl
   Region.Collapse Region.Consec Region.Columns Region.History.
 
 Theorem C10_merge_inv : forall (R : Region) (SP : RSpec R), RegionOK R ->
-  forall l, Forall inv l -> inv (merge R l).
+  forall l, Forall inv l -> mergeable l -> inv (merge R l).
 Proof. intros R SP H. exact (@merge_inv R SP H). Qed.
 
 (** A region merged from ANY well-formed source regions answers every history exactly as a
     default region does (same indices, same reads). *)
 Theorem C10_merge_fresh_history : forall (R : Region) (SP : RSpec R), RegionOK R -> MergeFresh R ->
-  forall l (h : list (op R)) s log tr, Forall inv l ->
+  forall l (h : list (op R)) s log tr, Forall inv l -> mergeable l ->
   run h (merge R l) [] [] = Ok (s, log, tr) ->
   exists s', run h (dflt R) [] [] = Ok (s', log, tr) /\ sim s s'.
 Proof. exact (@merge_fresh_history). Qed.
